@@ -6,7 +6,7 @@
    exhibited on the model (open findings K2, K14; the IndexError K3 is fixed, F11). *)
 From Coq Require Import ZArith List Bool String PArith.
 From Droop Require Import Model.KernelBase Model.Arith Model.Prelude Model.State Model.Prims Model.Election
-  Proofs.CmdMeta Proofs.Decided Proofs.Forward Proofs.ForwardCount Proofs.Zlike Proofs.Terminate Proofs.TerminateMeek Proofs.TerminateQpq.
+  Proofs.CmdMeta Proofs.Decided Proofs.Forward Proofs.ForwardCount Proofs.Zlike Proofs.Terminate Proofs.TerminateMeek Proofs.TerminateQpq Proofs.ConserveCount Proofs.Winners.
 Import ListNotations.
 Open Scope Z_scope.
 
@@ -83,6 +83,20 @@ Theorem C01_qpq_counts_terminate_partial : forall A cfg pr fuel, NoDup (map pc_c
   exists s k, exec (@crashed A) fuel (count_cmd A cfg RQpq) (init_state A cfg pr) = Some (s, k).
 Proof. exact qpq_count_terminates. Qed.
 Print Assumptions C01_qpq_counts_terminate_partial.
+
+(* THE NUMBER OF WINNERS (second clause): a wigm or wigm-prf count (without sure-loser batches; Fixed, integer or Guarded with
+   guard 0; the driver hands the count the profile's own ballot count) that ends normally has elected exactly
+   min(seats, candidates that are not withdrawn).  Upper bound: C09's seat-bound theorem.  Lower bound: nobody is excluded
+   unless more candidates are still in the running than there are seats, and the closing step elects the remaining
+   hopefuls while seats are free (Proofs/Winners.v).  [win_rule cfg r] = r is wigm with cf_batch_zero cfg = false, or
+   wigm-prf with cf_batch cfg = false. *)
+Theorem C01_exact_number_of_winners_partial : forall A S (ZL : zlike A S) cfg,
+  cf_method cfg = MWigm -> exact A = false -> 0 <= cf_nballots cfg -> 0 <= cf_nseats cfg ->
+  forall r pr fuel s k, win_rule cfg r -> wf_profile pr -> cf_nballots cfg = ballot_total pr ->
+  exec (@crashed A) fuel (count_cmd A cfg r) (init_state A cfg pr) = Some (s, k) -> k <> Abort ->
+  nlen (electeds A s) = Z.min (cf_nseats cfg) (nlen (eligibles A s)).
+Proof. exact count_winners. Qed.
+Print Assumptions C01_exact_number_of_winners_partial.
 
 (* the full statement is FALSE for meek under guarded arithmetic with guard > 0: the model (which agrees with the
    code on this input, corpus K2) ends in a ZeroDivisionError.  5 candidates, 4 seats, ballots "1: 3 1 5", "5: 5". *)
